@@ -39,8 +39,10 @@ def main(tier, seed, replay):
         k.model_check("MC_Rate", mc_consts(comps=("A", "P"), kinds=("spawn", "mutate", "remove"), ops=4), inv, timeout=3000)
         for pol in ("black", "white"):
             k.model_check(f"MC_Vis_{pol}", mc_consts(policy=pol, kinds=("spawn", "despawn", "setvis", "mutate"), ops=4, ticks=3), inv, timeout=3000)
-        for f in ("F1", "F9", "F19"):
+        for f in ("F1", "F9"):
             k.must_find(f"MC_Mut_{f}", mc_consts(impl=f"Impl{f}"), inv)
+        # (a discarded-but-acknowledged message loses data only with rate-gated components)
+        k.must_find("MC_Rate_F19", mc_consts(impl="ImplF19", comps=("A", "P"), kinds=("spawn", "mutate"), ops=4), inv)
         k.must_find("MC_Struct_F3", mc_consts(impl="ImplF3", kinds=("spawn", "despawn", "remove"), idle=2), inv)
         k.must_find("MC_Rate_F4", mc_consts(impl="ImplF4", comps=("A", "P"), kinds=("spawn", "mutate"), ops=4), inv)
         k.must_find("MC_Rate_F18", mc_consts(impl="ImplF18", comps=("A", "P"), kinds=("spawn", "mutate", "remove"), ops=4), inv)
